@@ -327,6 +327,64 @@ func main() {
 		}()
 		fmt.Fprintf(&b, "/-- %s -/\ndef workersStarted : Option Nat := %s\n", why, optNat(understood, started))
 
+		// ---- a RequeueAfter result is re-delivered for ever
+		// The queue drops an item when NumRequeues(obj) reaches Result.MaxRequeueTimes. NumRequeues counts what the
+		// queue's rate limiter was asked about (AddRateLimited / <rate limiter>.When). On the path of a handler
+		// result WITHOUT error nothing may feed that counter, or the controller's {RequeueAfter, MaxRequeueTimes: 3}
+		// stops looking at a cluster that lost a name conflict after 3 retries. Found by role: in the function that
+		// calls the sync handler, calls named AddRateLimited / When outside the `if err != nil` block.
+		rq, rwhy := "none", "the function of SyncQueue that calls the sync handler was not recognised"
+		func() {
+			qf := g.ParseFile(qfile)
+			for _, d := range qf.Decls {
+				fd, ok := d.(*ast.FuncDecl)
+				if !ok || fd.Recv == nil || fd.Body == nil || !strings.Contains(render(g, fd.Body), ".syncHandler(") {
+					continue
+				}
+				errVar := ""
+				ast.Inspect(fd.Body, func(n ast.Node) bool {
+					if as, ok := n.(*ast.AssignStmt); ok && len(as.Lhs) == 2 && len(as.Rhs) == 1 && strings.Contains(render(g, as.Rhs[0]), ".syncHandler(") {
+						if id, ok := as.Lhs[1].(*ast.Ident); ok {
+							errVar = id.Name
+						}
+					}
+					return true
+				})
+				if errVar == "" {
+					return
+				}
+				counted := 0
+				var walk func(n ast.Node)
+				walk = func(n ast.Node) {
+					ast.Inspect(n, func(c ast.Node) bool {
+						if c == n {
+							return true
+						}
+						if is, ok := c.(*ast.IfStmt); ok && render(g, is.Cond) == errVar+" != nil" {
+							if is.Else != nil {
+								walk(is.Else)
+							}
+							return false // the error path has its own retry budget (maxErrRetries)
+						}
+						if ce, ok := c.(*ast.CallExpr); ok {
+							if sel, ok := ce.Fun.(*ast.SelectorExpr); ok && (sel.Sel.Name == "AddRateLimited" || sel.Sel.Name == "When") {
+								counted++
+							}
+						}
+						return true
+					})
+				}
+				walk(fd.Body)
+				if counted > 0 {
+					rq, rwhy = "some true", fd.Name.Name+": a requeue asked by a handler result without error feeds the counter MaxRequeueTimes is compared with"
+				} else {
+					rq, rwhy = "some false", fd.Name.Name+": nothing on the path of a handler result without error feeds the counter MaxRequeueTimes is compared with: such a result is re-delivered for ever"
+				}
+				return
+			}
+		}()
+		fmt.Fprintf(&b, "/-- %s -/\ndef requeueAfterCounted : Option Bool := %s\n", rwhy, rq)
+
 		// ---- the SNI verify-options provider and the control plane's client-cert configuration
 		const afile = "pkg/gateway/proxy/options/authentication.go"
 		af := g.ParseFile(afile)
